@@ -7,6 +7,13 @@ T1 == ( <<97>> :> B("A") ) @@ ( <<97, 98>> :> B("AB") ) @@ ( <<97, 98, 120>> :> 
 T2 == ( <<97>> :> B("A") ) @@ ( <<97, 97>> :> B("AA") ) @@ ( <<98, 97>> :> B("BA") ) @@ ( <<120>> :> M(<<97, 98>>) )
 T3 == ( <<27>> :> B("ESC") ) @@ ( <<27, 97>> :> B("Ma") ) @@ ( <<27, 98, 97>> :> B("Mba") ) @@ ( <<97>> :> B("A") ) @@ ( <<120>> :> M(<<27, 98>>) )
 T4 == ( <<97, 98>> :> B("AB") ) @@ ( <<98>> :> M(<<97>>) ) @@ ( <<120, 120>> :> B("XX") ) @@ ( <<97, 120>> :> M(<<98, 98>>) )
+\* a bound prefix of a binding three keys longer, single-key binds in between, and a macro (on y) whose body walks into the
+\* long binding and rules it out from inside: the left-over keys go back IN FRONT of the rest of the macro, in order
+T5 == ( <<97>> :> B("A") ) @@ ( <<97, 120, 98, 97>> :> B("AXBA") ) @@ ( <<98>> :> B("B") ) @@ ( <<120>> :> B("X") )
+      @@ ( <<121>> :> M(<<97, 120, 98, 98, 120>>) )
+Alphabet5 == {97, 98, 120, 121}
+In4y == UNION { [1..k -> Alphabet5] : k \in 0..4 }
+In5y == UNION { [1..k -> Alphabet5] : k \in 0..5 }
 Alphabet == {97, 98, 120, 27}
 AllInputs(n) == UNION { [1..k -> Alphabet] : k \in 0..n }
 In4 == AllInputs(4)
